@@ -264,6 +264,14 @@ def build_grader(cls, answer, spec, samplers=None, **extra):
         # generous tolerance some student would match it and the single-answer rule would no longer be the oracle.)
         cfg['answers'] = ({'expect': '(%s)*(1+2e-13)' % answer, 'grade_decimal': 0.25 * spec['credit'], 'msg': 'near'},
                           {'expect': answer, 'grade_decimal': spec['credit']})
+    if extra.pop('other_shapes', False):
+        # alternatives of OTHER shapes listed before and after the answer, in a grader that grades shape mismatches as wrong
+        # instead of raising: comparing with them fails part-way, which concerns that alternative only (a seeded change moved
+        # the error handling around the whole loop over the alternatives, so that one mismatch voided the submission)
+        alts = cfg['answers'] if isinstance(cfg['answers'], tuple) else (cfg['answers'],)
+        odd = {'expect': '[7, 8, 9, 10, 11]', 'grade_decimal': 0.1 * spec['credit'], 'msg': 'other shape'}
+        cfg['answers'] = (odd,) + alts + (dict(odd, expect='[[1, 2, 3], [4, 5, 6], [7, 8, 9]]'),)
+        cfg['answer_shape_mismatch'] = {'is_raised': False, 'msg_detail': 'type'}
     if cls is not NumericalGrader:
         cfg.update(samples=spec['samples'], failable_evals=spec['failable'], user_functions=LIBF)
         if samplers:
@@ -479,7 +487,10 @@ def judge_array(spec, rec, E, samplers):
     F, near, asym = count_failures(pairs, spec['tol'], rec)
     want = expect_verdict(spec, F)
     a_str, s_str = render_arr(trees), render_arr(studs)
-    g = build_grader(MatrixGrader, a_str, spec, samplers, max_array_dim=2)
+    others = spec['seed'] % 3 == 0
+    g = build_grader(MatrixGrader, a_str, spec, samplers, max_array_dim=2, other_shapes=others)
+    if others:
+        rec.cls('array/alternatives-of-other-shapes-around-the-answer')
     k, r = grade(g, s_str, spec)
     rec.calls()
     what = 'array answer %r student %r tol %r samples %d failable %d: %d failing samples' % (
